@@ -65,6 +65,51 @@ def value_pool(rng, vclass, dtype, k):
     return vals.astype(dtype)
 
 
+CRC32_MULTIPLE = 0x1DB710641     # XOR-ing it into a message keeps its CRC-32
+
+
+def fingerprint_chunk(case, dtype, rng):
+    """Blocks whose lookup tables are DIFFERENT but agree in length, in their
+    smallest / largest entries, in the multiset (sum, XOR) of their bytes or
+    in their CRC-32: whatever cheap fingerprint an encoder might use to spot
+    'the same table again', the tables still differ."""
+    C = case["channels"]
+    X, Y, Z = case["size"]
+    bx, by, bz = case["block"]
+    wide = dtype.itemsize == 8
+    shift = 40 if wide else 16
+    out = np.zeros((C, Z, Y, X), dtype=dtype)
+    k = int(rng.integers(2, 5))
+    base = [((j + 1) << shift) | (0x0100 if j == 0 else 0x0001 if j == 1
+                                  else 0x0203 + j) for j in range(k)]
+    variants = [list(base)]
+    v1 = list(base)                   # bytes swapped between two entries
+    v1[0] = (1 << shift) | 0x0001
+    v1[1] = (2 << shift) | 0x0100
+    variants.append(v1)
+    v2 = list(base)                   # a middle entry changed
+    v2[k // 2] ^= 0x0400
+    variants.append(v2)
+    if wide:
+        v3 = list(base)               # equal CRC-32
+        v3[0] ^= CRC32_MULTIPLE
+        variants.append(v3)
+        v4 = list(base)
+        v4[k - 1] ^= CRC32_MULTIPLE
+        variants.append(v4)
+    n = 0
+    for c in range(C):
+        for z0 in range(0, Z, bz):
+            for y0 in range(0, Y, by):
+                for x0 in range(0, X, bx):
+                    pal = np.array(variants[n % len(variants)], dtype=dtype)
+                    n += 1
+                    sub = out[c, z0:z0 + bz, y0:y0 + by, x0:x0 + bx]
+                    idx = np.arange(sub.size) % len(pal)
+                    sub[...] = pal[rng.permutation(idx)].reshape(sub.shape)
+    return out
+
+
 def build_chunk(case):
     dtype = np.dtype(case["dtype"]).newbyteorder("<")
     C = case["channels"]
@@ -75,6 +120,8 @@ def build_chunk(case):
     if case.get("uniform"):
         out[...] = value_pool(rng, case["values"], dtype, 1)[0]
         return out
+    if case["values"] == "fingerprint":
+        return fingerprint_chunk(case, dtype, rng)
     prev = None
     for c in range(C):
         for z0 in range(0, Z, bz):
@@ -130,7 +177,7 @@ def cases(draw):
         "pal": draw(st.lists(st.sampled_from(sorted(PAL_CLASSES)), min_size=1,
                              max_size=3)),
         "values": draw(st.sampled_from(["small", "ge2^32", "ge2^53", "max",
-                                        "mid"])),
+                                        "mid", "fingerprint"])),
         "share": draw(st.booleans()),
         "uniform": draw(st.integers(0, 11)) == 0,
         "seed": draw(st.integers(0, 2 ** 32 - 1)),
@@ -396,7 +443,65 @@ def run_dataset(ctx, n):
     ctx.run_hypothesis(dataset_cases(), check, n)
 
 
+# ---- one channel beyond the 24-bit table offsets of the block headers ---------
+def check_huge(ctx, case):
+    """A channel whose encoding passes 2**24 words (64 MiB): a block that
+    needs a NEW lookup table beyond that point cannot be expressed by the
+    24-bit table offset of the format - the encoder must refuse, not write a
+    wrapped offset.  A channel below the limit (case["blocks"] small) must
+    encode correctly; sampled blocks (first, last, around the 2**22 / 2**24
+    word marks) are decoded from the format description."""
+    from neuroglancer_scripts.chunk_encoding import \
+        CompressedSegmentationEncoder
+    nb = case["blocks"]                   # 64x64x64 blocks stacked along z
+    side = case.get("side", 64)
+    vox = side ** 3
+    rng = np.random.default_rng(case["seed"])
+    chunk = np.empty((1, side * nb, side, side), dtype="<u8")
+    # all-distinct labels in every block but the last two (two labels each)
+    for b in range(nb):
+        blk = chunk[0, b * side:(b + 1) * side]
+        if b >= nb - 2:
+            blk[...] = rng.integers(1, 3, size=blk.shape) + 10 * (b + 1)
+        else:
+            blk[...] = (np.arange(vox, dtype=np.uint64) + np.uint64(
+                b * vox + 2 ** 33)).reshape(blk.shape)
+    enc = CompressedSegmentationEncoder("uint64", 1, [side, side, side])
+    try:
+        buf = bytes(enc.encode(chunk))
+    except Exception:       # noqa   (a refusal is the right answer if > 2^24)
+        return "refused"
+    only = {0, nb - 1, nb - 2, nb // 2}
+    sub = {b: chunk[0, b * side:b * side + 2, :2, :2].copy() for b in only}
+    # decode 2x2x2 corners of the sampled blocks only (pure Python reader)
+    for b in sorted(only):
+        ref = cseg_spec.decode_corner(buf, chunk.shape, [side] * 3, "<u8",
+                                      b, 2)
+        if not np.array_equal(ref, sub[b]):
+            ctx.fail("block %d of a %d-block channel (%d MiB encoded): the "
+                     "file decodes to %s, the chunk holds %s" % (
+                         b, nb, len(buf) >> 20, ref.reshape(-1)[:4].tolist(),
+                         sub[b].reshape(-1)[:4].tolist()))
+    return "encoded"
+
+
+def run_huge(ctx, n):
+    # 30 blocks of 64^3 distinct uint64 labels = 30 x (2 MiB table + 0.5 MiB
+    # values): the table offsets pass 2**24 words at block 26
+    for nb, side in ((6, 64), (30, 64))[:max(1, n)]:
+        case = {"blocks": nb, "side": side, "seed": ctx.seed}
+        try:
+            out = check_huge(ctx, case)
+        except AssertionError as exc:
+            ctx.violations.append({"sub": "huge_channel", "case": case,
+                                   "message": str(exc)})
+            break
+        ctx.record(case, True, ["huge." + out, "blocks%d" % nb])
+
+
 def replay(ctx, case):
+    if "blocks" in case:
+        return check_huge(ctx, case)
     if "scales" in case:
         return check_dataset(ctx, case)
     selftest_reference()
@@ -411,6 +516,7 @@ SUBS = [
     Sub("bits16", run_family(16), replay, quick=80, thorough=3000, shards=4),
     Sub("bits32", run_family(32), replay, quick=16, thorough=300, shards=4),
     Sub("via_dataset", run_dataset, replay, quick=150, thorough=6000),
+    Sub("huge_channel", run_huge, replay, quick=2, thorough=2, shards=1),
     Sub("many_tables", run_many_tables, replay, quick=4, thorough=24,
         shards=2),  # ~65k (quick) / ~131k (thorough) lookup tables per chunk
 ]
